@@ -665,7 +665,14 @@ impl Sim {
 
     /// Runs one client call under the virtual-day watchdog. None = the call did not return.
     pub fn call<F: Future>(&self, fut: F) -> Option<F::Output> {
-        self.rt.block_on(async { tokio::time::timeout(Duration::from_secs(86_400), fut).await.ok() })
+        {
+            let w = self.w.borrow();
+            let ctx = w.ctx.borrow();
+            vcore::report::watch_enter(|| format!("client call #{} of the execution with choices {:?} (requests seen so far: {})", w.t.glog.len(), ctx.choices(), w.t.glog.iter().filter(|(_, e)| matches!(e, ConnEv::Command(..))).count()));
+        }
+        let r = self.rt.block_on(async { tokio::time::timeout(Duration::from_secs(86_400), fut).await.ok() });
+        vcore::report::watch_exit();
+        r
     }
 
     pub fn now_ms(&self) -> u64 {
